@@ -761,6 +761,26 @@ def check(run: Run) -> None:
         from . import c01
         R.share(run, "C14.m", c01, ["C01.d2"])
 
+    with run.obligation("C14.n", "K7", "a child whose stop hook fails makes the run fail, whichever owner holds it: the stop CALLBACK of every keyed owner (map_, reduce_, tsl_map_, mesh_, "
+                        "ordered reduce_) stops all its children best-effort AND reports the first failure (a FirstExceptionRecorder rethrown at the end) - a callback that only "
+                        "delegates to the destructor's `*_noexcept` teardown swallows it, and run() returns success although a node failed to stop "
+                        "(KNOWN FINDING F-C14-3: tsl_map_; mesh_ and ordered reduce_ by the same construct)"):
+        OWN = [("tsl_map_node.cpp", "tsl_map_node_stop"), ("mesh_node.cpp", "mesh_node_stop"), ("ordered_reduce_node.cpp", "ordered_reduce_stop"),
+               ("map_node.cpp", "map_node_stop"), ("reduce_node.cpp", "reduce_node_stop")]
+        n_own = 0
+        for tu, nm in OWN:
+            rel = RT + tu
+            fa_ = R.fn(run, rel, nm)
+            n_own += 1
+            run.count(1, "C14.n")
+            closure = R.call_closure(run, fa_, [rel], depth=2)
+            reports = any(R.callee_name(c) == "rethrow_if_any" for _, c in closure)
+            swallow = [R.callee_name(c) for _, c in closure if (R.callee_name(c) or "").endswith("_noexcept") or R.callee_name(c) == "fallback_on_exception"]
+            if not reports:
+                run.finding("C14.n", f"{nm}:child-stop-failure-swallowed", f"{nm} (the stop callback of {tu.replace('_node.cpp', '_')}) never rethrows a recorded child stop failure "
+                            f"(it tears down through {sorted(set(swallow))[:3]}): every child is stopped, but the error does not reach the caller of run()", loc=fa_.loc(fa_.body))
+        run.sites(n_own, 5, "stop callbacks of keyed owners")
+
 
 ANYARGS = ("anyargs",)
 
